@@ -85,12 +85,18 @@ def patch_variants(prop: str) -> List[Dict[str, Any]]:
         files |= {"src/celpy/evaluation.py", "src/celpy/celtypes.py"}
     import re as _re
 
+    refs = []
     for p in sorted((VERIF / "refactors").glob("*/r*.diff")):
         touched = set(_re.findall(r"^\+\+\+ b/(\S+)", p.read_text(), _re.M))
         if files and not (touched & files):
             continue
-        out.append({"name": f"refactor:{p.parent.name}/{p.stem}", "patch": p, "expect_rc": 0})
-    return out
+        refs.append({"name": f"refactor:{p.parent.name}/{p.stem}", "patch": p, "expect_rc": 0})
+    # a bounded, deterministic sample keeps the thorough tier within a few minutes (tools/refactest.py runs them all)
+    cap = int(os.environ.get("VERIF_SELFTEST_REFACTORS", "48"))
+    if len(refs) > cap:
+        step = len(refs) / cap
+        refs = [refs[int(i * step)] for i in range(cap)]
+    return out + refs
 
 
 def run_patch_variant(prop: str, v: Dict[str, Any], repo_root: str = "/repo") -> Dict[str, Any]:
